@@ -438,6 +438,11 @@ def oracle_filters(rng, n, stats, props, kinds=('size', 'prefix', 'position', 's
                         v.append(viol('C06', 'OverlapFilter.filter_tables is not exact (overlap %d)' % ov, case, exact_t, in_tables))
                     if 'C14' in props and ov == 0 and (in_tables or not dropped_pair):
                         v.append(viol('C14', 'OverlapFilter keeps a pair without a common token', case))
+                    if 'C04' in props and f.comp_op == '>=' and ov >= f.overlap_size:
+                        if dropped_pair:
+                            v.append(viol('C04', 'OverlapFilter.filter_pair drops a pair whose overlap %d meets the threshold %s' % (ov, f.overlap_size), case, False, True))
+                        if not in_tables:
+                            v.append(viol('C04', 'OverlapFilter.filter_tables omits a pair whose overlap %d meets the threshold %s' % (ov, f.overlap_size), case, True, False))
                     continue
                 if both_empty and m not in ('OVERLAP', 'EDIT_DISTANCE'):
                     if 'C09' in props:
@@ -806,62 +811,74 @@ def oracle_history(rng, n, stats):
 
 
 # ------------------------------------------------------------------ C13 metamorphic laws
+def check_laws(which, ts, L, R, lk, rk, la, ra, t, kw, rng):
+    """the three C13 laws on one pair of tables (oracle-free); returns violations"""
+    v = []
+    kw = dict(kw)
+    kw.update({'allow_missing': False, 'l_out_attrs': None, 'r_out_attrs': None, 'out_sim_score': True})
+    kw.pop('l_out_prefix', None)
+    kw.pop('r_out_prefix', None)
+    case = join_case(which, ts, L, R, lk, rk, la, ra, t, kw)
+    ed = which == 'edit_distance'
+    try:
+        A = call_join(which, L, R, lk, rk, la, ra, ts, t, kw)
+        B = call_join(which, R, L, rk, lk, ra, la, ts, t, kw)
+        a = sorted((str(p[0]), str(p[1]), float(s)) for p, s in zip(out_pairs(A, 'l_' + lk, 'r_' + rk), A['_sim_score']))
+        b = sorted((str(p[1]), str(p[0]), float(s)) for p, s in zip(out_pairs(B, 'l_' + rk, 'r_' + lk), B['_sim_score']))
+        if a != b:
+            v.append(viol('C13', '%s_join: swapping the tables changes the result' % which, case, len(a), len(b)))
+        # operator partition
+        ge, gt, eq = ('<=', '<', '=') if ed else ('>=', '>', '=')
+        res = {}
+        for o in (ge, gt, eq):
+            X = call_join(which, L, R, lk, rk, la, ra, ts, t, dict(kw, comp_op=o))
+            res[o] = sorted((str(p[0]), str(p[1]), float(s)) for p, s in zip(out_pairs(X, 'l_' + lk, 'r_' + rk), X['_sim_score']))
+        lval, rval = dict(zip(map(str, L[lk]), L[la])), dict(zip(map(str, R[rk]), R[ra]))
+
+        def excluded(p, thresholds, op_names):
+            if ed or which in ('overlap', 'overlap_coefficient'):
+                lt, rt = ts.tokens(lval[p[0]], True), ts.tokens(rval[p[1]], True)
+                return which == 'overlap_coefficient' and not lt and not rt
+            lt, rt = ts.tokens(lval[p[0]], True), ts.tokens(rval[p[1]], True)
+            if not lt and not rt:
+                return True
+            raw = SIMS[which](set(lt), set(rt))
+            return any(OPS[o](raw, th) != OPS[o](round(raw, 4), th) for th in thresholds for o in op_names)
+        u = sorted(x for x in res[gt] + res[eq] if not excluded(x, [t], [ge, gt, eq]))
+        g = sorted(x for x in res[ge] if not excluded(x, [t], [ge, gt, eq]))
+        inter = set(x[:2] for x in res[gt] if not excluded(x, [t], [ge, gt, eq])) & set(x[:2] for x in res[eq] if not excluded(x, [t], [ge, gt, eq]))
+        if u != g or inter:
+            v.append(viol('C13', "%s_join: '%s' is not the disjoint union of '%s' and '%s'" % (which, ge, gt, eq), case, len(g), len(u)))
+        # threshold refinement: the result at `t` against the result at a laxer threshold restricted to scores meeting `t`,
+        # and the result at a stricter threshold against the restriction of the result at `t`
+        if ed:
+            lax, strict_t = int(math.floor(t)) + rng.randint(0, 2), max(0, int(math.floor(t)) - rng.randint(0, 2))
+            meets = lambda sc, th: sc <= int(math.floor(th))       # noqa: E731
+        elif which == 'overlap':
+            lax, strict_t = max(1, t - rng.randint(0, 2)), t + rng.randint(0, 2)
+            meets = lambda sc, th: sc >= th                        # noqa: E731
+        else:
+            lax, strict_t = max(1e-3, t * rng.choice([1.0, 0.9, 0.5, 0.3])), min(1.0, t + rng.choice([0.0, 0.05, 0.1, 0.3, 1e-9]))
+            meets = lambda sc, th: sc >= th                        # noqa: E731
+        for t1, t2 in ((lax, t), (t, strict_t)):
+            Y1 = call_join(which, L, R, lk, rk, la, ra, ts, t1, dict(kw, comp_op=ge))
+            Y2 = call_join(which, L, R, lk, rk, la, ra, ts, t2, dict(kw, comp_op=ge))
+            y1 = sorted((str(p[0]), str(p[1]), float(s)) for p, s in zip(out_pairs(Y1, 'l_' + lk, 'r_' + rk), Y1['_sim_score']))
+            y2 = sorted((str(p[0]), str(p[1]), float(s)) for p, s in zip(out_pairs(Y2, 'l_' + lk, 'r_' + rk), Y2['_sim_score']))
+            s2 = sorted(x for x in y1 if meets(x[2], t2) and not excluded(x, [t1, t2], [ge]))
+            y2 = sorted(x for x in y2 if not excluded(x, [t1, t2], [ge]))
+            if y2 != s2:
+                v.append(viol('C13', '%s_join: result at the stricter threshold %r is not the restriction of the result at %r' % (which, t2, t1), case, len(s2), len(y2)))
+    except Exception as e:   # noqa: BLE001
+        v.append(viol('C15', 'valid join call raised %s: %s' % (type(e).__name__, str(e)[:80]), case))
+    return v
+
+
 def oracle_laws(rng, n, stats, datasets=False):
     v = []
     for _ in range(n):
         which, ts, L, R, lk, rk, la, ra, t, kw = gen_join_case(rng, stats, n_jobs_choices=(1, 1, 2))
-        kw.update({'allow_missing': False, 'l_out_attrs': None, 'r_out_attrs': None, 'out_sim_score': True})
-        kw.pop('l_out_prefix', None)
-        kw.pop('r_out_prefix', None)
-        case = join_case(which, ts, L, R, lk, rk, la, ra, t, kw)
-        ed = which == 'edit_distance'
-        try:
-            A = call_join(which, L, R, lk, rk, la, ra, ts, t, kw)
-            B = call_join(which, R, L, rk, lk, ra, la, ts, t, kw)
-            a = sorted((str(p[0]), str(p[1]), float(s)) for p, s in zip(out_pairs(A, 'l_' + lk, 'r_' + rk), A['_sim_score']))
-            b = sorted((str(p[1]), str(p[0]), float(s)) for p, s in zip(out_pairs(B, 'l_' + rk, 'r_' + lk), B['_sim_score']))
-            if a != b:
-                v.append(viol('C13', '%s_join: swapping the tables changes the result' % which, case, len(a), len(b)))
-            # operator partition
-            ge, gt, eq = ('<=', '<', '=') if ed else ('>=', '>', '=')
-            res = {}
-            for o in (ge, gt, eq):
-                X = call_join(which, L, R, lk, rk, la, ra, ts, t, dict(kw, comp_op=o))
-                res[o] = sorted((str(p[0]), str(p[1]), float(s)) for p, s in zip(out_pairs(X, 'l_' + lk, 'r_' + rk), X['_sim_score']))
-            lval, rval = dict(zip(map(str, L[lk]), L[la])), dict(zip(map(str, R[rk]), R[ra]))
-
-            def excluded(p, thresholds, op_names):
-                if ed or which in ('overlap', 'overlap_coefficient'):
-                    lt, rt = ts.tokens(lval[p[0]], True), ts.tokens(rval[p[1]], True)
-                    return which == 'overlap_coefficient' and not lt and not rt
-                lt, rt = ts.tokens(lval[p[0]], True), ts.tokens(rval[p[1]], True)
-                if not lt and not rt:
-                    return True
-                raw = SIMS[which](set(lt), set(rt))
-                return any(OPS[o](raw, th) != OPS[o](round(raw, 4), th) for th in thresholds for o in op_names)
-            u = sorted(x for x in res[gt] + res[eq] if not excluded(x, [t], [ge, gt, eq]))
-            g = sorted(x for x in res[ge] if not excluded(x, [t], [ge, gt, eq]))
-            inter = set(x[:2] for x in res[gt] if not excluded(x, [t], [ge, gt, eq])) & set(x[:2] for x in res[eq] if not excluded(x, [t], [ge, gt, eq]))
-            if u != g or inter:
-                v.append(viol('C13', "%s_join: '%s' is not the disjoint union of '%s' and '%s'" % (which, ge, gt, eq), case, len(g), len(u)))
-            # threshold refinement
-            if ed:
-                t2 = max(0, int(math.floor(t)) - rng.randint(0, 2))
-                strict = [x for x in res[ge] if x[2] <= t2]
-            elif which == 'overlap':
-                t2 = t + rng.randint(0, 2)
-                strict = [x for x in res[ge] if x[2] >= t2]
-            else:
-                t2 = min(1.0, t + rng.choice([0.0, 0.05, 0.1, 0.3, 1e-9]))
-                strict = [x for x in res[ge] if x[2] >= t2]
-            Y = call_join(which, L, R, lk, rk, la, ra, ts, t2, dict(kw, comp_op=ge))
-            y = sorted((str(p[0]), str(p[1]), float(s)) for p, s in zip(out_pairs(Y, 'l_' + lk, 'r_' + rk), Y['_sim_score']))
-            y2 = sorted(x for x in y if not excluded(x, [t, t2], [ge]))
-            s2 = sorted(x for x in strict if not excluded(x, [t, t2], [ge]))
-            if y2 != s2:
-                v.append(viol('C13', '%s_join: result at the stricter threshold %r is not the restriction of the result at %r' % (which, t2, t), case, len(s2), len(y2)))
-        except Exception as e:   # noqa: BLE001
-            v.append(viol('C15', 'valid join call raised %s: %s' % (type(e).__name__, str(e)[:80]), case))
+        v += check_laws(which, ts, L, R, lk, rk, la, ra, t, kw, rng)
     return v
 
 
